@@ -118,9 +118,18 @@ Theorem C04_partition_blocks :
 Proof. intros parts. split; [intros pi; apply positions_of_sorted | apply positions_partition]. Qed.
 Print Assumptions C04_partition_blocks.
 
-(* Clause kept as an explicit statement: not proved for the model in this
-   revision; every generated case is checked against it by Corr/C04.v
-   spec_ok (bounded validation). *)
+(* reference coordinates: a FINITE statement, by exhaustive evaluation in the kernel - for every
+   reference row of length 1..7 over {A, C, gap} and every window (s, l) of its ungapped residues, the
+   alignment window returned holds exactly those residues and starts and ends on a residue *)
+Theorem C04_refcoordinates_small :
+  forall n ref s l, In n [1; 2; 3; 4; 5; 6; 7]%nat -> In ref (bwords n [x41; x43; x2d]) ->
+  0 <= s -> 0 < l -> s + l <= Z.of_nat (length (ungapb ref)) ->
+  refcoord_ok ref s l = true.
+Proof. exact refcoordinates_small. Qed.
+Print Assumptions C04_refcoordinates_small.
+
+(* The same clause for every row (unbounded): not proved for the model in this revision; every
+   generated case is checked against it by Corr/C04.v spec_ok (bounded validation). *)
 Definition C04_refcoordinates_statement : Prop :=
   forall rs name s l st ln ref,
   get_seq name rs = Some ref -> 0 <= s -> 0 < l -> s + l <= Z.of_nat (length (ungapb ref)) ->
